@@ -23,7 +23,8 @@ def main():
     if scratch:
         # run against a scratch copy of /repo (cargo paths override) so that /repo itself is not touched
         os.makedirs("/scratch", exist_ok=True)
-        sh("rsync -a --delete --exclude target --exclude .git /repo/ %s/" % SCR)
+        # no -t: a file reverted with `patch -R` keeps its new mtime (so cargo rebuilds it); only files whose CONTENT differs from /repo are copied
+        sh("rsync -rlpD --checksum --delete --exclude target --exclude .git /repo/ %s/" % SCR)
     elif sh("git -C /repo status --porcelain --untracked-files=no").stdout.strip():
         print("refusing: /repo has uncommitted changes"); return 2
     res_path = os.path.join(SEEDED, "RESULTS.json")
